@@ -18,6 +18,10 @@ bool SchemaAuditor::CheckConstituenta(const std::string& alias, const std::strin
 
   const auto isBaseSet = IsBaseSet(targetType);
   if (isBaseSet != empty(definition)) {
+    // Note: expression is not analysed - do not keep the verdict of the previous check
+    auditor.isParsed = false;
+    auditor.isTypeCorrect = false;
+    auditor.isValueCorrect = false;
     OnError(isBaseSet ? CstTypeEID::cstNonemptyBase : CstTypeEID::cstEmptyDerived);
     return false;
   }
@@ -45,6 +49,7 @@ bool SchemaAuditor::CheckConstituenta(const std::string& alias, const std::strin
 
 bool SchemaAuditor::CheckExpression(const std::string& expr, const rslang::Syntax syntax) {
   auditor.parser.log.Clear();
+  prefixLen = 0;
   return auditor.CheckType(expr, syntax);
 }
 
